@@ -55,6 +55,7 @@ type Handle struct {
 	actor  string
 	proc   *Process // nil for env/user
 	faulty bool     // writes of this handle are fault-eligible and pre-emptible
+	noYield bool    // never park inside a call (the caller holds a lock of a third-party library)
 }
 
 var _ client.Client = &Handle{}
@@ -159,7 +160,7 @@ func (h *Handle) gate(ci callInfo) (string, writeCtx) {
 		ctx.Commut = true
 		return "", ctx
 	}
-	if sim.Cfg.Interleave && sim.cur != nil && sim.T.Chance(sim.Cfg.PreemptPermyr) {
+	if sim.Cfg.Interleave && !h.noYield && sim.cur != nil && sim.T.Chance(sim.Cfg.PreemptPermyr) {
 		sim.stat("sched.preempt")
 		sim.park()
 	}
